@@ -31,6 +31,12 @@ def _keep_invalid_bytes_quoted(error):
 
 codecs.register_error("ural_keep_quoted", _keep_invalid_bytes_quoted)
 
+C1_CONTROL_CHARS_RE = re.compile("[\x80-\x9f]")
+
+
+def _quote_match(match):
+    return quote(match.group(0))
+
 
 def _unquote_impl(string, only_printable=False, unsafe=None):
     string = string.encode("utf-8")
@@ -44,7 +50,7 @@ def _unquote_impl(string, only_printable=False, unsafe=None):
         b = HEX_TO_BYTE.get(item[:2])
 
         if b is not None:
-            if only_printable and b < b" ":
+            if only_printable and (b < b" " or b == b"\x7f"):
                 append(b"%")
                 append(item)
             elif unsafe is not None and b in unsafe:
@@ -71,6 +77,11 @@ def _generate_unquoted_parts(string, only_printable=False, unsafe=None):
         c = _unquote_impl(m, only_printable=only_printable, unsafe=unsafe).decode(
             "utf-8", "ural_keep_quoted"
         )
+
+        # NOTE: C1 control characters can only come from escapes here, since
+        # the matched run is pure ascii
+        if only_printable:
+            c = C1_CONTROL_CHARS_RE.sub(_quote_match, c)
 
         yield c
 
